@@ -115,6 +115,9 @@ type c13Env struct {
 	spends      map[wire.OutPoint]*chainntnfs.SpendDetail
 	confirmable map[string]bool
 	offered     map[wire.OutPoint]bool
+	// outputs handed to the utxo nursery (durable in the nursery store):
+	// label of the htlc -> second-level output the nursery will sweep
+	incubated map[string]wire.OutPoint
 	ourWitness  map[string]wire.TxWitness
 	breachDone  bool
 	labels      map[wire.OutPoint]string
@@ -731,6 +734,36 @@ func (b *c13Builder) incoming(idx uint64, expiry uint32) {
 	b.spec = append(b.spec, fmt.Sprintf("SPEC c label=%s kind=ic two=0 idx=%d expiry=%d", l, idx, expiry))
 }
 
+// incomingLegacy adds an incoming HTLC on OUR commitment of a pre-anchor
+// channel: second-level success tx published by the resolver, its output handed
+// to the utxo nursery (IncubateOutputs), then checkpointed.
+func (b *c13Builder) incomingLegacy(idx uint64, expiry uint32) {
+	pre, hash := c13Preimage(byte(idx))
+	op := wire.OutPoint{Hash: b.commitHash, Index: uint32(idx)}
+	l := fmt.Sprintf("h%d", idx)
+	b.labels[op] = l
+	b.confHtlcs = append(b.confHtlcs, channeldb.HTLC{
+		Incoming: true, Amt: 10_000_000, HtlcIndex: idx,
+		OutputIndex: int32(idx), RefundTimeout: expiry, RHash: hash,
+	})
+	successTx := &wire.MsgTx{
+		Version: 2,
+		TxIn: []*wire.TxIn{{PreviousOutPoint: op,
+			Witness: [][]byte{{}, {0x30}, {0x31}, {}, {0x51}}}},
+		TxOut: []*wire.TxOut{{Value: 9000, PkScript: []byte{0xee, byte(idx)}}},
+	}
+	claim := wire.OutPoint{Hash: successTx.TxHash(), Index: 0}
+	b.labels[claim] = l + "/2"
+	b.inRes = append(b.inRes, lnwallet.IncomingHtlcResolution{
+		SignedSuccessTx: successTx,
+		ClaimOutpoint:   claim,
+		SweepSignDesc:   testSignDesc,
+		CsvDelay:        4,
+	})
+	b.preimages[l] = pre
+	b.spec = append(b.spec, fmt.Sprintf("SPEC c label=%s kind=ic two=1 legacy=1 idx=%d expiry=%d", l, idx, expiry))
+}
+
 func c13Dust(idx uint64, incoming bool) channeldb.HTLC {
 	_, hash := c13Preimage(byte(idx))
 	return channeldb.HTLC{
@@ -756,6 +789,7 @@ func c13NewEnv(t *testing.T, dir string, scn *c13Scenario, crashAt []int) *c13En
 		spends:      map[wire.OutPoint]*chainntnfs.SpendDetail{},
 		confirmable: map[string]bool{},
 		offered:     map[wire.OutPoint]bool{},
+		incubated:   map[string]wire.OutPoint{},
 		ourWitness:  map[string]wire.TxWitness{},
 		labels:      map[wire.OutPoint]string{},
 		height:      100,
@@ -847,12 +881,24 @@ func (r *c13Run) start() {
 		}
 		return nil
 	}
-	cfg.IncubateOutputs = func(wire.OutPoint, fn.Option[lnwallet.OutgoingHtlcResolution],
-		fn.Option[lnwallet.IncomingHtlcResolution], uint32, fn.Option[int32],
+	cfg.IncubateOutputs = func(_ wire.OutPoint,
+		outRes fn.Option[lnwallet.OutgoingHtlcResolution],
+		inRes fn.Option[lnwallet.IncomingHtlcResolution], uint32, fn.Option[int32],
 		...IncubateOption) error {
 
-		e.effect(ep, "I ep=%d incubate", ep)
-		return nil
+		// IncubateOutputs persists the output in the nursery store: a
+		// durable write (idempotent), hence a stop point.
+		var lbl string
+		var claim wire.OutPoint
+		inRes.WhenSome(func(r lnwallet.IncomingHtlcResolution) {
+			lbl = e.label(r.HtlcPoint())
+			claim = r.ClaimOutpoint
+		})
+		outRes.WhenSome(func(r lnwallet.OutgoingHtlcResolution) {
+			lbl = e.label(r.HtlcPoint())
+			claim = r.ClaimOutpoint
+		})
+		return e.envWrite(ep, "incubate "+lbl, func() { e.incubated[lbl] = claim })
 	}
 	cfg.SubscribeBreachComplete = func(_ *wire.OutPoint, c chan struct{}) (bool, error) {
 		e.touch()
@@ -1010,6 +1056,16 @@ func (r *c13Run) flushConfirms() bool {
 			continue
 		}
 		if e.confirmable[e.label(op)] {
+			e.confirmOurs(op)
+			did = true
+		}
+	}
+	for l, op := range e.incubated {
+		if _, ok := e.spends[op]; ok {
+			continue
+		}
+		if e.confirmable[l+"/2"] {
+			e.labels[op] = l + "/2"
 			e.confirmOurs(op)
 			did = true
 		}
@@ -1280,6 +1336,10 @@ func c13StepClose() c13Step {
 
 // c13Unilateral builds a local / remote / pending-remote force close scenario.
 func c13Unilateral(name string, kind string, near, hold bool, rng *rand.Rand) *c13Scenario {
+	legacy := kind == "legacy"
+	if legacy {
+		kind = "local"
+	}
 	local := kind == "local"
 	const closeHeight = 100
 	b := c13NewBuilder(local, byte(len(name)), closeHeight)
@@ -1292,6 +1352,10 @@ func c13Unilateral(name string, kind string, near, hold bool, rng *rand.Rand) *c
 	// the arbitrator goes to chain by itself: chain trigger).
 	if near {
 		b.outgoing(12, 103, "timeout")
+	}
+	if legacy {
+		// h15: incoming htlc on our own commitment of a pre-anchor channel
+		b.incomingLegacy(15, 175)
 	}
 	if !local {
 		// h13: incoming, we learn the preimage and claim; h14: incoming, never
@@ -1319,23 +1383,44 @@ func c13Unilateral(name string, kind string, near, hold bool, rng *rand.Rand) *c
 	conf = append(conf, dustOut, dustIn)
 
 	scn := &c13Scenario{name: name, hold: hold, closeTx: b.closeTx}
+	// Output indexes are per commitment: on the commitments that did NOT
+	// confirm the same htlcs sit at other output indexes, and DIFFERENT
+	// (dangling) htlcs occupy the output indexes the confirmed commitment
+	// uses for its htlcs.
+	var shifted []channeldb.HTLC
+	for _, h := range conf {
+		if h.OutputIndex >= 0 {
+			h.OutputIndex += 50
+		}
+		shifted = append(shifted, h)
+	}
+	var collide []channeldb.HTLC
+	var collideIdx []uint64
+	for _, h := range b.confHtlcs {
+		d := channeldb.HTLC{Incoming: false, Amt: 7_000_000, HtlcIndex: h.HtlcIndex + 30,
+			OutputIndex: h.OutputIndex, RefundTimeout: 190}
+		_, d.RHash = c13Preimage(byte(h.HtlcIndex + 30))
+		collide = append(collide, d)
+		collideIdx = append(collideIdx, d.HtlcIndex)
+	}
+	other := append(append(append([]channeldb.HTLC(nil), shifted...), dangling), collide...)
 	var confKey HtlcSetKey
 	sets := map[HtlcSetKey][]channeldb.HTLC{}
 	switch kind {
 	case "local":
 		confKey = LocalHtlcSet
 		sets[LocalHtlcSet] = conf
-		sets[RemoteHtlcSet] = append(append([]channeldb.HTLC(nil), conf...), dangling)
+		sets[RemoteHtlcSet] = other
 	case "remote":
 		confKey = RemoteHtlcSet
-		sets[LocalHtlcSet] = conf
+		sets[LocalHtlcSet] = shifted
 		sets[RemoteHtlcSet] = conf
-		sets[RemotePendingHtlcSet] = append(append([]channeldb.HTLC(nil), conf...), dangling)
+		sets[RemotePendingHtlcSet] = other
 	case "pending":
 		confKey = RemotePendingHtlcSet
-		sets[LocalHtlcSet] = conf
+		sets[LocalHtlcSet] = shifted
 		sets[RemotePendingHtlcSet] = conf
-		sets[RemoteHtlcSet] = append(append([]channeldb.HTLC(nil), conf...), dangling)
+		sets[RemoteHtlcSet] = other
 	}
 	scn.htlcs = sets
 	scn.spec = append(scn.spec, b.spec...)
@@ -1356,6 +1441,9 @@ func c13Unilateral(name string, kind string, near, hold bool, rng *rand.Rand) *c
 		fmt.Sprintf("SPEC close kind=%s height=%d delta=5", ck, closeHeight),
 	)
 	_ = nearI
+	for _, i := range collideIdx {
+		scn.spec = append(scn.spec, fmt.Sprintf("SPEC dangling idx=%d", i))
+	}
 	commitSet := CommitSet{ConfCommitKey: fn.Some(confKey), HtlcSets: sets}
 	hres := &lnwallet.HtlcResolutions{OutgoingHTLCs: b.outRes, IncomingHTLCs: b.inRes}
 	spendDetail := &chainntnfs.SpendDetail{
@@ -1419,6 +1507,9 @@ func c13Unilateral(name string, kind string, near, hold bool, rng *rand.Rand) *c
 	}
 	if !local {
 		groups = append(groups, []c13Step{c13StepPreimage("h13", b.preimages["h13"]), c13StepConfirmable("h13")})
+	}
+	if legacy {
+		groups = append(groups, []c13Step{c13StepPreimage("h15", b.preimages["h15"]), c13StepConfirmable("h15/2")})
 	}
 	if near {
 		groups[0] = []c13Step{c13StepHeight(104), c13StepConfirmable("h12")}
@@ -1528,6 +1619,7 @@ func c13Scenarios(seed int64) []*c13Scenario {
 	localB.steps = append([]c13Step{c13StepHeight(99)}, localB.steps...)
 	return []*c13Scenario{
 		localB,
+		c13Unilateral("localL", "legacy", false, false, rng),
 		c13Unilateral("local", "local", true, false, rng),
 		c13Unilateral("localU", "local", false, false, rng),
 		c13Unilateral("remote", "remote", false, false, rng),
@@ -1550,6 +1642,7 @@ func c13Scenarios(seed int64) []*c13Scenario {
 type c13Case struct {
 	scn   int
 	crash []int
+	rep   int // repetition number (map-order dependent behaviour needs several restarts)
 }
 
 func (c c13Case) id(scns []*c13Scenario) string {
@@ -1560,6 +1653,9 @@ func (c c13Case) id(scns []*c13Scenario) string {
 	var p []string
 	for _, x := range c.crash {
 		p = append(p, strconv.Itoa(x))
+	}
+	if c.rep > 0 {
+		return s + strings.Join(p, "_") + "r" + strconv.Itoa(c.rep)
 	}
 	return s + strings.Join(p, "_")
 }
@@ -1662,6 +1758,28 @@ func TestVerifC13(t *testing.T) {
 			}
 		}
 	}
+	// the same stop point in StateWaitingFullResolution many times: what a
+	// restart re-derives from Go maps may differ from restart to restart
+	reps := 8
+	if thorough {
+		reps = 24
+	}
+	for i := range scns {
+		if scns[i].name != "localU" && scns[i].name != "remote" {
+			continue
+		}
+		k := 0
+		for _, l := range strings.Split(res[i].trace, "\n") {
+			ws := strings.Fields(l)
+			if len(ws) > 3 && ws[0] == "W" && ws[3] == "st=3" {
+				k, _ = strconv.Atoi(ws[1])
+				break
+			}
+		}
+		for r := 1; k > 0 && r <= reps; r++ {
+			cases = append(cases, c13Case{scn: i, crash: []int{k + 1}, rep: r})
+		}
+	}
 	res2 := c13RunChildren(t, out+".p2", seed, cases)
 
 	f, err := os.Create(out)
@@ -1691,6 +1809,9 @@ func c13ParseCase(s string) c13Case {
 			c.crash = append(c.crash, n)
 		}
 	}
+	if len(parts) > 2 {
+		c.rep, _ = strconv.Atoi(parts[2])
+	}
 	return c
 }
 
@@ -1699,7 +1820,7 @@ func (c c13Case) enc() string {
 	for _, x := range c.crash {
 		p = append(p, strconv.Itoa(x))
 	}
-	return fmt.Sprintf("%d:%s", c.scn, strings.Join(p, ","))
+	return fmt.Sprintf("%d:%s:%d", c.scn, strings.Join(p, ","), c.rep)
 }
 
 type c13Result struct {
